@@ -592,10 +592,27 @@ func genPlan(rt *rapid.T) *plan {
 		PlanC2P: genReadPlan(rt, small), PlanO2P: genReadPlan(rt, small),
 		WriteC: genWritePlan(rt, small), WriteO: genWritePlan(rt, small),
 	}
-	if chance(rt, 5, "client-abort") {
+	// idle phase: after k complete exchanges the client goes silent and the origin closes the idle connection
+	if first := firstValid(p); first >= 0 && first+1 < len(p.Reqs) && chance(rt, 14, "idle-phase") {
+		p.IdleAt = irange(rt, first+1, len(p.Reqs)-1, "idle-at")
+		p.OriginIdleSec = sample(rt, []int{60, 5, 30, 600 - 1}, "origin-idle")
+	} else if chance(rt, 5, "client-abort") {
 		p.ClientAbort = irange(rt, 0, max(0, total-1), "abort-at")
 	}
 	return p
+}
+
+// firstValid returns the index of the first request that can be forwarded (-1 none).
+func firstValid(p *plan) int {
+	for i := range p.Reqs {
+		if !p.AuthEnabled {
+			return i
+		}
+		if _, valid := authValid(p, &p.Reqs[i]); valid {
+			return i
+		}
+	}
+	return -1
 }
 
 func stripField(r *reqPlan, name string) {
